@@ -376,6 +376,12 @@ theorem evL2_empty_noop {c : Cfg} {s : St} {n : UInt64} (hc : c.l2Clamps = true)
     | none => rfl
     | some l1 => simp [hc, hh]
 
+/-- `head - retained` for the head the node has NOW. -/
+def headBound (c : Cfg) (s : St) : Nat :=
+  match s.db.height with
+  | some h => h - c.retained.toNat
+  | none => 0
+
 /-! ### the minimum age -/
 
 theorem age_of_reach {c : Cfg} {s : St} (R : Reach c s) (hm : Mono c.ts) (hma : c.minAge = true) :
